@@ -82,6 +82,10 @@ def cases(tier, seed, i, n):
         rnd = random.Random(seed * 4099 + 6)
         for j in range(20 if tier == 'quick' else 300):
             yield dict(kind='noneg', hseed=rnd.randrange(1 << 30), offered=bool(j % 2))
+            if j % 2 == 0:
+                yield dict(kind='noneg', hseed=rnd.randrange(1 << 30), offered=False,
+                           unsolicited=('permessage-deflate', 'permessage-deflate; client_max_window_bits=10',
+                                        'x-unknown, permessage-deflate; server_no_context_takeover')[(j // 2) % 3])
         reps = 2 if tier == 'quick' else 80
         k = 0
         for rep in range(reps):
@@ -326,10 +330,26 @@ def run_noneg(case, acc):
         for m in msgs:
             sent.append(H.app_call(run, ws, 'send_binary', m, compress=rnd.random() < 0.7))
 
-    w = H.World(H.hs_server([], {}))
+    hs = {}
+    if case.get('unsolicited'):
+        # the client did not offer the extension (compress=False, no Sec-WebSocket-Extensions in its request) but
+        # the reply lists it all the same: nothing was negotiated (RFC 6455 9.1: an extension is negotiated by
+        # the client offering and the server accepting it)
+        hs = dict(extra=[('Sec-WebSocket-Extensions', case['unsolicited'])])
+    w = H.World(H.hs_server([], hs))
     run = H.drive(w, ws_kwargs=dict(compress=case['offered']), connect_kwargs=dict(ping_rate=0), policy=policy)
     reqs, frames, residue, errors = H.client_frames(w.conns[0])
     key = None
+    if case.get('unsolicited'):
+        acc.count2('nonegotiation', 'unsolicited_extension_runs')
+        if b'sec-websocket-extensions' in reqs[0].lower():
+            acc.inconclusive.append('client offered an extension although compress=False: %r' % (reqs[0][:300],))
+            return
+        if not sent:
+            # refusing such a reply altogether is a possible reaction too (C10 judges handshake outcomes)
+            acc.count2('nonegotiation', 'unsolicited_extension_reply_refused')
+            acc.cls('noneg/unsolicited-refused')
+            return
     if len(frames) != len(msgs) or residue or errors:
         key = 'wire-not-one-frame-per-message'
     for f, m in zip(frames, msgs):
@@ -341,4 +361,4 @@ def run_noneg(case, acc):
     if key:
         acc.violation(key, 'C06 %s' % key, case, dict(nframes=len(frames)))
     else:
-        acc.cls('noneg/offered=%s' % case['offered'])
+        acc.cls('noneg/offered=%s/unsolicited=%s' % (case['offered'], bool(case.get('unsolicited'))))
